@@ -212,6 +212,11 @@ func zzH_C16_commit_revert_root(t *zzT) {
 	// revert block 2
 	rv, err := a.Revert(&labi.RevertRequest{ContextID: []byte{2}, StateRoot: r2.StateRoot})
 	t.Assert(err == nil && rv != nil && bytes.Equal(rv.StateRoot, zz16RefRoot(k1, v1, 0)), "reverting block 2 restores the state root of block 1")
+	// a restart right after the revert: the engine's tip is block 1 with root r1 — the application's own
+	// record of its tip (height, root) must agree, otherwise Init refuses to start
+	restarted := &ABIHandler{logger: zz16Logger{}, stateDB: database}
+	_, ierr := restarted.Init(&labi.InitRequest{ChainID: []byte{0, 0, 0, 1}, LastBlockHeight: 1, LastStateRoot: r1.StateRoot})
+	t.Assert(ierr == nil, "a restart after the revert finds the application at block 1 with the root of block 1")
 	// the state store (prefix 0) is as after block 1; tree nodes / diff / tree-state records are not compared
 	same := true
 	st1, st2 := after1, database.Iterate(StateDBPrefixState, -1, false)
